@@ -23,6 +23,14 @@ def t_arg(a):
     return "-" if a is None else "%s:%s" % (a[0], E(a[1]))
 
 
+def t_fcond(c):
+    if c[0] == "F":
+        return ["F", E(c[1]), str(len(c[2]))] + [t_arg(a) for a in c[2]]
+    if c[0] == "~":
+        return ["~"] + t_fcond(c[1])
+    return t_cond(c)
+
+
 def t_block(b):
     out = ["["]
     for s in b:
@@ -36,11 +44,11 @@ def t_stmt(s):
         return ["c"] + t_prim(s[1])
     if k == "i":
         _, sp, c, b, els, e = s
-        out = ["i", E(sp)] + t_cond(c) + t_block(b)
+        out = ["i", E(sp)] + t_fcond(c) + t_block(b)
         closed = False
         for el in els:
             if el[0] == "ei":
-                out += ["ei", E(el[1])] + t_cond(el[2]) + t_block(el[3])
+                out += ["ei", E(el[1])] + t_fcond(el[2]) + t_block(el[3])
             else:
                 out += ["el", E(el[1])] + t_block(el[2])
                 closed = True
@@ -49,7 +57,7 @@ def t_stmt(s):
         return out + [E(e)]
     if k == "w":
         _, sp, c, b, e = s
-        return ["w", E(sp)] + t_cond(c) + t_block(b) + [E(e)]
+        return ["w", E(sp)] + t_fcond(c) + t_block(b) + [E(e)]
     if k == "f":
         _, sp, x, hv, b, e = s
         return ["f", E(sp), E(x), E(hv)] + t_block(b) + [E(e)]
@@ -101,6 +109,10 @@ class Gen:
         self.nconds = 0
         self.ntag = 0
         nf = r.choice([1, 1, 2, 2, 3, 4])
+        # mode A: no condition-position calls; B: such calls, every function ends with `return <value>`
+        # and has no bare return; C: such calls, calls made inside functions have no output variable
+        # (B and C keep the program out of the corner the property leaves open)
+        self.mode = r.choice("AAAAABBBBCCD")   # D: condition-position calls, nothing avoided
         self.fnames = ["f%d" % k for k in range(nf)]
         self.scoped = [r.random() < 0.4 for _ in range(nf)]
         self.arrays = []
@@ -117,9 +129,17 @@ class Gen:
             self.cur = k
             self.vars = ["1", "2", "a", "b", "r0", "r1"]
             body = self.block(r.choice([1, 2, 3]), 0, in_for=False, infn=True, top=True)
-            if r.random() < 0.5:
+            if self.mode == "B":
+                body.append(("r", self.sp("return"), self.arg() or ("L", "yes")))
+            elif r.random() < 0.5:
                 body.append(("r", self.sp("return"), self.arg()))
             defs.append((self.sp("function"), self.scoped[k], self.fnames[k], body, self.sp("close_fn")))
+        if self.mode != "A":
+            # a tester for while conditions: truthy while its script lasts
+            defs.append((self.sp("function"), False, "ft",
+                         [("c", ("E", "t", ["1"])), ("i", "if", ("N", "cw"), [("r", "return", ("V", "1"))], [], "end"),
+                          ("r", "return", ("L", "no"))], "end"))
+            self.scripts["cw"] = "".join(r.choice("TTF") for _ in range(r.randint(0, 5)))
         self.cur = -1
         self.vars = ["a", "b", "r0", "r1", "r2"]
         main = main_pre + self.block(2, 0, in_for=False, infn=False, top=True)
@@ -141,10 +161,28 @@ class Gen:
         self.scripts[n] = "".join(r.choice("TTF") for _ in range(r.choice([0, 1, 1, 2, 2, 3, 4])))
         return n
 
+    def call_cond(self):
+        """a condition-position call: forward callee only (or any, from main), so no new cycle"""
+        r = self.rng
+        k = self.cur
+        cands = [j for j in range(len(self.fnames)) if j > k] if k >= 0 else list(range(len(self.fnames)))
+        if not cands:
+            return None
+        args = [a for a in (self.arg() for _ in range(r.choice([0, 1, 1, 2]))) if a is not None]
+        c = ("F", self.fnames[r.choice(cands)], args)
+        return ("~", c) if r.random() < 0.25 else c
+
     def cond(self, loop):
         r = self.rng
         if loop:
+            if self.mode != "A" and r.random() < 0.3:
+                c = ("F", "ft", [("L", r.choice(["yes", "x", "1"]))])
+                return c
             return ("N", self.cond_var())
+        if self.mode != "A" and r.random() < 0.4:
+            c = self.call_cond()
+            if c:
+                return c
         x = r.random()
         if x < 0.45:
             return ("N", self.cond_var())
@@ -177,6 +215,8 @@ class Gen:
             guarded = True
         args = [a for a in (self.arg() for _ in range(r.choice([0, 1, 1, 2, 3]))) if a is not None]
         out = r.choice([None, "r0", "r1", "r2", "a"])
+        if self.mode == "C" and self.cur >= 0:
+            out = None
         st = ("k", out, self.fnames[j], args)
         if guarded:
             return ("i", self.sp("if"), ("N", "cr"), [st], [], self.sp("close_if"))
@@ -213,7 +253,7 @@ class Gen:
                 out.append(self.call())
             elif x < 0.65 and infn:
                 self.budget -= 1
-                out.append(("r", self.sp("return"), self.arg()))
+                out.append(("r", self.sp("return"), self.arg() or ("L", "x") if self.mode == "B" else self.arg()))
             elif x < 0.82:
                 self.budget -= 2
                 b = self.block(depth - 1, level + 1, in_for, infn)
@@ -272,6 +312,33 @@ def directed(T):
            ("r", "return", ("V", "1"))]
     for s in ("", "T", "TT", "TTT", "TFT"):
         cases.append(("directed", [("fn", False, "f0", rec, "end_fn")], [("k", "r0", "f0", [("L", "top")]), ("c", ("E", "m", ["r0", "r1", "1"]))], ["cr", s]))
+    # calls in condition position: if / elseif / while / not, scoped or not, value / bare return / fall-off,
+    # inside loops and inside other functions (also evaluated in condition position themselves)
+    ft = ("fn", False, "ft", [("c", ("E", "t", ["1"])), ("i", "if", ("N", "cw"), [("r", "return", ("V", "1"))], [], "end"),
+                              ("r", "return", ("L", "no"))], "end")
+    for scoped in (False, True):
+        for ending in ("value", "bare", "falloff"):
+            tail = {"value": [("r", "return", ("V", "1"))], "bare": [("r", "return", None)], "falloff": []}[ending]
+            fp = ("function", scoped, "f0", [("c", ("E", "p", ["1", "a"])), ("c", ("S", "b", "inner"))] + tail, "end")
+            fg = ("fn", False, "f1", [("i", "if", ("F", "f0", [("V", "1")]), [("r", "return", ("L", "yes"))],
+                                       [("ei", "elseif", ("~", ("F", "f0", [("V", "2")])), [("r", "return", ("L", "0"))])], "end"),
+                                      ("r", "return", ("V", "2"))], "end_fn")
+            for a1, a2 in (("yes", "no"), ("no", "yes"), ("0", "0"), ("x", "False")):
+                main = [("c", ("S", "a", "A0")), ("c", ("A", "h", ["yes", "no", "q"])),
+                        ("i", "if", ("F", "f0", [("L", a1)]), [("c", ("E", "A", ["b"]))],
+                         [("ei", "elif", ("F", "f0", [("L", a2)]), [("c", ("E", "B", ["b"]))]),
+                          ("el", "else", [("c", ("E", "C", ["b"]))])], "end"),
+                        ("i", "if", ("~", ("F", "f0", [("L", a1)])), [("c", ("E", "N", []))], [], "end_if"),
+                        ("f", "for", "v", "h", [("i", "if", ("F", "f0", [("V", "v")]), [("c", ("E", "L", ["v"]))], [], "end")], "end"),
+                        ("w", "while", ("F", "ft", [("L", a1)]), [("c", ("E", "W", []))], "end"),
+                        ("i", "if", ("F", "f1", [("L", a1), ("L", a2)]), [("c", ("E", "G", []))], [("el", "else", [("c", ("E", "H", []))])], "end"),
+                        ("k", "r0", "f1", [("L", a2), ("L", a1)]), ("c", ("E", "fin", ["r0", "a", "b", "1", "2"]))]
+                cases.append(("directed", [fp, fg, ft], main, ["cw", "TTF"]))
+    # the open corner itself (not compared): under a condition-position call, r = h where h falls off
+    cases.append(("directed", [("fn", False, "f0", [("c", ("E", "h", []))], "end"),
+                               ("fn", False, "f1", [("k", "r0", "f0", []), ("r", "return", ("V", "r0"))], "end")],
+                  [("c", ("S", "r0", "old")), ("i", "if", ("F", "f1", []), [("c", ("E", "T", []))], [("el", "else", [("c", ("E", "E", []))])], "end"),
+                   ("c", ("E", "fin", ["r0"]))], []))
     return cases
 
 
@@ -307,7 +374,7 @@ def run(ck):
         for n in T[k]:
             names.append(n)
             want.append(full[0] if full else "?missing-full-name")
-    extra = ["f0", "f1", "f2", "f3"] + SAFE_VALUES + ["undefined", "deeper", "bottom", "top", "yes", "old"]
+    extra = ["f0", "f1", "f2", "ft"] + SAFE_VALUES + ["undefined", "deeper", "bottom", "top", "yes", "old"]
     reg = dec_list(ck.impl(["REG\t" + enc_list(names + extra)])[0])
     ck.obligations.append("registry: every spelling of function / end_function / return runs its command; generated names are free")
     bad_reg = [(n, w, g) for n, w, g in zip(names, want, reg) if w != g]
@@ -349,7 +416,9 @@ def run(ck):
         for pos, (k, io_full) in enumerate(zip(idx, i_out)):
             kind, defs, main, init = cases[k]
             text, wf, kf6, spec, model = m_out[k].split("\t")
-            ordered = kf6.endswith("O")
+            ordered = "O" in kf6
+            condcalls = "C" in kf6
+            corner = "K" in kf6
             kf6 = kf6[:1]
             io = split_result(io_full)[0] if io_full.startswith("OK") else io_full
             script_lines = dec_list(text)
@@ -363,7 +432,11 @@ def run(ck):
                 dist[key][val] = dist[key].get(val, 0) + 1
             bad = None
             cls = None
-            if wf != "T":
+            if corner and wf == "T":
+                # the corner the property leaves open (output variable of a value-less call made under a
+                # condition-position call) can be reached: nothing is compared
+                cls = "open corner reachable: not compared"
+            elif wf != "T":
                 bad = "generated program is outside the theorem's domain (wf_prog = F)"
             elif spec == "ERR" and model.startswith("STOP") and kf6 != "T":
                 # array_push on a variable that holds no array (e.g. invisible in a <scope> function)
@@ -396,6 +469,7 @@ def run(ck):
                         f6["witness"] = {"script": script_lines, "init": init, "spec": spec, "implementation": io}
             else:
                 cls = "in domain, proved part (calls follow the definition order)" if ordered else \
+                      "in domain, calls in condition position (correspondence only)" if condcalls else \
                       "in domain, correspondence only (call-graph cycle)"
                 nontriv.add((text, tuple(init)))
                 if spec != model:
